@@ -339,6 +339,24 @@ func Fail(t TB, check, kind, signature string, c interface{}, format string, arg
 	return false
 }
 
+// Inflight journals the case about to be evaluated: if the process dies (fatal stack overflow, runtime
+// throw) or hangs while evaluating it, the file is left behind and the driver re-runs it in a fresh process;
+// a reproducible death or hang is reported as a violation of kind <kindPrefix>/fatal-crash. Done removes it.
+func Inflight(check, kindPrefix string, c interface{}) (done func()) {
+	raw, err := json.Marshal(c)
+	if err != nil {
+		return func() {}
+	}
+	sh, _ := Shard()
+	dir := replayDir()
+	_ = os.MkdirAll(dir, 0o755)
+	path := filepath.Join(dir, unsafeName.ReplaceAllString(fmt.Sprintf("inflight-%s-%s-s%d-sh%d-p%d", check, Tier(), Seed(), sh, os.Getpid()), "_")+".json")
+	rf := ReplayFile{Property: property, Check: check, Kind: kindPrefix + "/fatal-crash", Signature: "fatal-crash", Message: "the process died or hung while evaluating this case", Tier: Tier(), Seed: Seed(), Case: raw}
+	b, _ := json.Marshal(rf)
+	_ = os.WriteFile(path, b, 0o644)
+	return func() { _ = os.Remove(path) }
+}
+
 // RegisterReplay registers the oracle re-evaluation of a check on a stored case. fn returns
 // (kind, message) of the violation, or ("", "") when the property holds on that case.
 func RegisterReplay(check string, fn func(raw json.RawMessage) (string, string)) {
